@@ -447,12 +447,20 @@ def check_eps_reference(prog, rep):
                 continue
             divisors = {x.right.id for x in ast.walk(st.value) if isinstance(x, ast.BinOp) and
                         isinstance(x.op, ast.Div) and isinstance(x.right, ast.Name)}
+            cand = []
             for dv in sorted(divisors):
                 ds = defs.get(dv, [])
-                if len(ds) != 1 or not (isinstance(ds[0], ast.Call) and unparse(ds[0].func) in (
-                        'npc.norm', 'np.linalg.norm', 'norm') and ds[0].args):
+                if len(ds) == 1:
+                    cand.append((dv, ds[0]))
+            for x in ast.walk(st.value):   # `.. / npc.norm(theta)` written inline
+                if isinstance(x, ast.BinOp) and isinstance(x.op, ast.Div) and isinstance(
+                        x.right, ast.Call):
+                    cand.append((unparse(x.right)[:30], x.right))
+            for dv, d0 in cand:
+                if not (isinstance(d0, ast.Call) and unparse(d0.func) in (
+                        'npc.norm', 'np.linalg.norm', 'norm') and d0.args):
                     continue
-                of = unparse(ds[0].args[0])
+                of = unparse(d0.args[0])
                 n += 1
                 rep.instance('TRUNC-eps-reference', {'function': q, 'normalisation': dv,
                                                      'norm_of': of, 'approximated': minuend})
